@@ -1,11 +1,15 @@
 /-
 C03 — conversion offers every matching dictionary word and only dictionary words.
 
-Model: Chokan.Model.Kkc.  Soundness is proved for every candidate (`C03_sound`); completeness is proved
-at lattice level (`C03_head_word_is_node`): the candidate-level claim additionally needs the
-completeness of the A* enumeration (C02), which is checked per case by the executable oracle.
+Model: Chokan.Model.Kkc.  Soundness is proved for every candidate (`C03_sound`); completeness at the head
+is proved at lattice level (`C03_head_word_is_node`) and at candidate level (`C03_complete_head`: with
+the regenerated score tables the path word + rest is connectable, and the optimal search of C02 returns
+it unless the list is cut at `n`).  The clause about words right after a leading prefix is checked per
+case by the executable oracle.
 -/
 import Chokan.Lemmas.KkcSource
+import Chokan.Lemmas.KkcComplete
+import Chokan.Props.C02
 
 namespace Chokan.Props.C03
 open Chokan.Kkc Chokan.Dic
@@ -75,5 +79,28 @@ theorem C03_head_word_is_node (t : Tables) (input : Str) (d : Dict) (ctx : Ctx) 
     (hw : w ∈ lookup d.stdTrie d.std (slice input 0 i)) :
     ∃ l idx, g[i]? = some l ∧ Node.word i idx w (some 0) ∈ l :=
   head_word_in_lattice t input d ctx g hg i hi w hw
+
+/-- **Completeness at the head, candidate level.**  With the score tables regenerated from the source,
+for every input, well-formed dictionary, context, learned counts and `n ≥ 1`: for every independent
+word the standard dictionary returns for a non-empty prefix `input[0..=i]`, the candidate list (the
+same from some number of loop iterations on) contains that word's written form followed by the rest of
+the input verbatim — unless the list is full (`n` entries), i.e. always in the untruncated list. -/
+theorem C03_complete_head (input : Str) (d : Dict) (ctx : Ctx) (f : Freq) (n : Nat) (hn : 1 ≤ n)
+    (hd : Dict.WF d) (i : Nat) (hi : i < input.length) (w : Word)
+    (hw : w ∈ lookup d.stdTrie d.std (slice input 0 i)) (hind : w.speech.isAncillary = false) :
+    ∃ fuel0 R, ∀ fuel, fuel0 ≤ fuel →
+      getCandidates genTables input d ctx f n fuel = some R ∧
+      (w.word ++ input.drop (i + 1) ∈ R.map Cand.text ∨ R.length = n) := by
+  have hg0 : ∃ g0, fromInput genTables input d ctx = some g0 := ⟨_, rfl⟩
+  obtain ⟨g0, hg0⟩ := hg0
+  obtain ⟨fuel0, R, hall⟩ := C02.C02_full genTables input d ctx f n hn hd g0 hg0
+  obtain ⟨p, s, hch, hps, htext⟩ := head_path input d ctx f hd g0 hg0 i hi w hw hind
+  refine ⟨fuel0, R, ?_⟩
+  intro fuel hf
+  obtain ⟨hget, _, _, _, hopt⟩ := hall fuel hf
+  refine ⟨hget, ?_⟩
+  rcases hopt p s hch hps with h | ⟨h, _⟩
+  · left; rw [← htext]; exact h
+  · exact Or.inr h
 
 end Chokan.Props.C03
